@@ -1,0 +1,54 @@
+//! Verification hooks (only compiled with the `verif_hooks` cargo feature).
+//!
+//! A harness installs a thread-local callback that is invoked at the few program points
+//! where the environment (a writer appending to a followed file, the Ctrl-C handler clearing
+//! the `running` flag) can be observed by the executor. Without a callback every point is a no-op.
+
+use std::cell::RefCell;
+
+#[derive(Debug, Clone, Copy, PartialEq, Eq, Hash)]
+pub enum Point {
+    /// `FollowFileIterator::next` saw end-of-file without a complete line and is about to retry.
+    FollowRetry,
+    /// `FileExecutor::execute` is about to load the `running` flag for the next input line.
+    BatchLine,
+    /// `JoinedTableData::execute` is about to handle the next line of the joined file.
+    JoinLoadLine,
+    /// `FollowFileExecutor::execute` is about to load the `running` flag for the next input line.
+    FollowLine
+}
+
+#[derive(Debug, Clone, Copy, PartialEq, Eq)]
+pub enum Action {
+    Continue,
+    Stop
+}
+
+thread_local! {
+    static CALLBACK: RefCell<Option<Box<dyn FnMut(Point) -> Action>>> = RefCell::new(None);
+}
+
+pub fn set(callback: Box<dyn FnMut(Point) -> Action>) {
+    CALLBACK.with(|cell| { *cell.borrow_mut() = Some(callback); });
+}
+
+pub fn clear() {
+    CALLBACK.with(|cell| { *cell.borrow_mut() = None; });
+}
+
+pub fn point(point: Point) -> Action {
+    CALLBACK.with(|cell| {
+        let callback = cell.borrow_mut().take();
+        match callback {
+            Some(mut callback) => {
+                let action = callback(point);
+                let mut slot = cell.borrow_mut();
+                if slot.is_none() {
+                    *slot = Some(callback);
+                }
+                action
+            }
+            None => Action::Continue
+        }
+    })
+}
